@@ -154,7 +154,7 @@ def _load_known():
     p = os.path.join(os.path.dirname(os.path.abspath(__file__)), "known_functions.json")
     try:
         d = json.load(open(p))
-        return set(d["functions"]), set(d["names"]), dict(d.get("arity", {}))
+        return set(d["functions"]), set(d["names"]), dict(d.get("arity", {})), set(d.get("classes", []))
     except Exception:
         return None
 
